@@ -190,7 +190,11 @@ def text_of(case):
 
 def relate_alarms(rng, als):
     """RFC 9074 bookkeeping properties on sibling alarms (UID, RELATED-TO;RELTYPE=SNOOZE / other relation types, PROXIMITY):
-    none of them takes part in the computation of alarm times"""
+    none of them takes part in the computation of alarm times.  Before that, sometimes one alarm is repeated with exactly
+    the same content (two equal reminders are two alarms)."""
+    import copy
+    if als and rng.random() < 0.25:
+        als.insert(rng.randrange(len(als) + 1), copy.deepcopy(rng.choice(als)))
     if rng.random() < 0.45:
         for i, a in enumerate(als):
             a.setdefault("extra", [])
